@@ -135,7 +135,10 @@ Proof.
   - (* ODrain *)
     exact (exec_drain c w st a v sb eb pat f r Hwf HW Hfuse Hr).
   - (* OSplice *)
-    cbn [admissible] in Hadm. exact (exec_splice c w st a v sb eb pat f rk n wrong_at claimed r Hwf HW Hfuse Hr Hadm).
+    cbn [admissible] in Hadm.
+    destruct rk as [| |src]; try exact (exec_splice c w st a v sb eb pat f _ n wrong_at claimed r Hwf HW Hfuse Hr Hadm).
+    destruct wrong_at as [x|]; [exact (exec_splice c w st a v sb eb pat f _ n _ claimed r Hwf HW Hfuse Hr Hadm)|].
+    exact (exec_splice_lazy c w st a v sb eb pat f src n claimed r Hwf HW Hfuse Hr Hadm).
   - (* OClone *)
     cbn [admissible] in Hadm. exact (exec_clone c w st v dst r Hwf HW Hfuse Hr Hadm).
   - (* OCloneEmpty *)
@@ -259,6 +262,9 @@ Proof.
     try (apply sp_capacity_nx in H; exact H);
     try (apply sp_drain_nx in H; exact H);
     try (apply sp_splice_nx in H; exact H);
+    try (destruct rk as [| |src]; try (apply sp_splice_nx in H; exact H);
+         destruct wrong_at; [apply sp_splice_nx in H; exact H|];
+         unfold sp_splice_lazy in H; cbv zeta in H; crush H; cbn; split; lia);
     try (apply sp_look_nx in H; exact H);
     try (apply sp_take_nx in H; exact H);
     try (destruct (fresh_src s); [apply sp_offer_nx in H; exact H|];
@@ -636,6 +642,11 @@ Definition ex_ops : list op :=
        relocating backend, then the handle is dropped; three are offered to StackN<2,8>: the third is refused and the
        unwinding drops the handle *)
     ORemove Erased 9 0 (KLazy 2 10 KDrop); OPop Erased 9 (KLazy 3 8 (KPush 10));
+    (* replacement items that are lazy clones of 10's elements: two go in; a forgotten one costs no value; one that
+       announces 3 and yields 1 *)
+    OSplice Erased 9 (BIncluded 0) (BExcluded 1) [] FinDrop (RLazy 10) 2 None 2;
+    OSplice Erased 9 (BIncluded 0) (BExcluded 1) [(true, KDrop)] FinForget (RLazy 10) 1 None 1;
+    OSplice Typed 9 BUnbounded (BExcluded 0) [] FinDrop (RLazy 10) 1 None 3;
     OViews 8 ].                                   (* view geometry of the full StackN<2,8>: 6 bytes of elements, no spare *)
 
 Example ex_spec_defined : exists rs, spec_run ex_cfg [] 1 ex_ops = Some rs /\ length rs = length ex_ops.
@@ -669,7 +680,7 @@ Example ex_outcomes :
      (0,0,[1]); (0,0,[1; 1; 56; 0; 56]); (2,3,[]); (0,0,[62]); (2,1,[]);
      (0,0,[]); (0,0,[]); (0,0,[64]);
      (0,0,[]); (0,0,[]); (0,0,[61]); (2,1,[]);
-     (0,0,[]); (2,3,[]); (0,0,[0; 6; 6; 0; 0; 2; 6; 0; 0])].
+     (0,0,[]); (2,3,[]); (0,0,[1]); (0,0,[1; 1; 70; 0]); (0,0,[0]); (0,0,[0; 6; 6; 0; 0; 2; 6; 0; 0])].
 Proof. vm_compute. reflexivity. Qed.
 
 (** ** Corollaries in the vocabulary of the properties *)
